@@ -26,6 +26,7 @@ import (
 	"sync"
 	"sync/atomic"
 	"testing"
+	"time"
 
 	"google.golang.org/grpc/encoding"
 	_ "google.golang.org/grpc/encoding/gzip" // the registered gzip compressor is one of the configurations
@@ -953,6 +954,7 @@ func TestVerif_C06_Framing(t *testing.T) {
 		return
 	}
 	x := c06NewRunner(r)
+	t0 := time.Now() // progress log only
 	defer debug.SetGCPercent(debug.SetGCPercent(400))
 
 	if f := r.ReplayFile(); f != "" {
@@ -1021,6 +1023,7 @@ func TestVerif_C06_Framing(t *testing.T) {
 		}
 	}
 	r.Set(P, "A_cases", casesA)
+	fmt.Printf("[c06] family A done at %.1fs\n", time.Since(t0).Seconds())
 
 	// family B
 	var casesB int64
@@ -1037,6 +1040,7 @@ func TestVerif_C06_Framing(t *testing.T) {
 		}
 	}
 	r.Set(P, "B_cases", casesB)
+	fmt.Printf("[c06] family B done at %.1fs\n", time.Since(t0).Seconds())
 
 	// family C
 	var casesC int64
@@ -1051,6 +1055,7 @@ func TestVerif_C06_Framing(t *testing.T) {
 		}
 	}
 	r.Set(P, "C_cases", casesC)
+	fmt.Printf("[c06] family C done at %.1fs\n", time.Since(t0).Seconds())
 	x.finish()
 
 	r.Sample(P, map[string]any{"family": "A", "stream": "00000000050102030405 | 01000000022161", "limit": 5, "config": "nib-v1", "chunking": "every one of the 2^(n-1)", "expected": "message 0102030405, then nibble payload 21 61 inflates to 6061.. within limit"})
